@@ -2,7 +2,7 @@
 
 A unit is described by /verif/contracts/<unit>.vspec (directive syntax below).  Everything that is
 executable in the generated file is cut verbatim from /repo's current working tree; the only
-changes are (a) the closed list of syntactic normalisations N1..N15 and (b) specification text
+changes are (a) the closed list of syntactic normalisations N1..N16 and (b) specification text
 spliced at structural anchor points S1..S8.  Every change is an `Edit` with its source offset; an
 erasure self-check undoes all of them on the generated text and demands the verbatim cut back.
 
@@ -297,6 +297,7 @@ _N13_ALL = re.compile(r"(?<![\w.])(\w+)(\s*\.iter\(\)\s*\.all\()(?=\|)")
 _N13_ZIP_MAP = re.compile(r"(?<![\w.])(\w+\s*\.iter\(\))(\s*\.zip\()(\w+\s*\.iter\(\))(\)\s*\.map\()(?=\|)")
 _N13_MAP = re.compile(r"(?<![\w.])(\w+\s*\.iter\(\))(\s*\.map\()(?=\|)")
 _N13_POSITION = re.compile(r"(?<![\w.])(\w+(?:\[[^\]\n]*\])?)(\s*\.iter\(\)\s*\.position\()(?=\|)")
+_N13_SET_COLLECT = re.compile(r"(?<![\w.])(\w+)(\s*\.into_iter\(\)\s*\.collect\(\))")
 _N13_FOLD = re.compile(r"(?<![\w.])(\w+\s*\.iter\(\))(\s*\.fold\()")
 _N13_TAIL_COLLECT = re.compile(r"\)\s*\.collect\(\)")
 _N13_TAIL_SUM = re.compile(r"\)\s*\.sum\(\)")
@@ -313,8 +314,10 @@ def norm_iter_chains(text, m, body_open, body_close):
         A.iter().zip(B.iter()).map(C).collect()  ->  verif_zip_map_collect(A.iter(), B.iter(), C)
         A.iter().map(C).collect()                ->  verif_map_collect(A.iter(), C)
         A.iter().map(C).sum()                    ->  verif_map_sum(A.iter(), C)
+        let x: Result<Vec<_>, _> = A.iter().map(C).collect()  ->  ... = verif_map_collect_result(&A, C)
         A.iter().fold(INIT, C)                   ->  verif_fold(A.iter(), INIT, C)
         A.iter().position(C)                     ->  verif_position(&A, C)         (A may be `name[range]`)
+        let x: Vec<usize> = S.into_iter().collect()  ->  ... = verif_set_into_vec(S)   (S a HashSet<usize>)
     with A, B identifiers and C a closure literal."""
     edits = []
     closures = None
@@ -352,17 +355,29 @@ def norm_iter_chains(text, m, body_open, body_close):
             continue
         t = _N13_TAIL_COLLECT.match(m, c[3])
         name = "verif_map_collect("
+        if t and re.search(r":\s*Result<Vec<[^=;]*=\s*$", m[max(0, mm.start(1) - 80) : mm.start(1)]):
+            name = "verif_map_collect_result("  # `let x: Result<Vec<_>, _> = A.iter().map(C).collect();`
         if not t:
             t = _N13_TAIL_SUM.match(m, c[3])
             name = "verif_map_sum("
         if not t:
             continue
-        edits.append(Edit(mm.start(1), "", name, "norm:N13"))
-        edits.append(Edit(mm.start(2), text[mm.start(2) : mm.end(2)], ", ", "norm:N13"))
+        if name == "verif_map_collect_result(":
+            # the vector itself is handed over (`A.iter()` moves into the helper's body)
+            ident = re.match(r"\w+", text[mm.start(1) : mm.end(1)]).group(0)
+            edits.append(Edit(mm.start(1), text[mm.start(1) : mm.end(2)], name + "&" + ident + ", ", "norm:N13"))
+        else:
+            edits.append(Edit(mm.start(1), "", name, "norm:N13"))
+            edits.append(Edit(mm.start(2), text[mm.start(2) : mm.end(2)], ", ", "norm:N13"))
         edits.append(Edit(t.start(), text[t.start() : t.end()], ")", "norm:N13"))
     for mm in _N13_POSITION.finditer(m, body_open, body_close):
         edits.append(Edit(mm.start(1), "", "verif_position(&", "norm:N13"))
         edits.append(Edit(mm.start(2), text[mm.start(2) : mm.end(2)], ", ", "norm:N13"))
+    for mm in _N13_SET_COLLECT.finditer(m, body_open, body_close):
+        # only for `let mut x: Vec<usize> = SET.into_iter().collect();`
+        if re.search(r":\s*Vec<usize>\s*=\s*$", m[max(0, mm.start(1) - 60) : mm.start(1)]):
+            edits.append(Edit(mm.start(1), "", "verif_set_into_vec(", "norm:N13"))
+            edits.append(Edit(mm.start(2), text[mm.start(2) : mm.end(2)], ")", "norm:N13"))
     for mm in _N13_FOLD.finditer(m, body_open, body_close):
         edits.append(Edit(mm.start(1), "", "verif_fold(", "norm:N13"))
         edits.append(Edit(mm.start(2), text[mm.start(2) : mm.end(2)], ", ", "norm:N13"))
@@ -699,6 +714,19 @@ def gen_fn(d, strip_paths, mode="verify", contract_text=None, vacuity=False):
             edits.append(Edit(mm.start(5), text[mm.start(5) : mm.end(5)], "0.." + place + ".len()", "norm:N15"))
             edits.append(Edit(lo + 1, "", " let " + x + " = " + ("" if amp else "&") + place + "[" + idx + "];", "norm:N15"))
 
+    # N16: a reference pattern inside `if let Some(&x) = E {` (Verus has no ref patterns):
+    #      -> `if let Some(verif_ref_x) = E { let x = *verif_ref_x;`   (x: Copy, as in N4)
+    for mm in re.finditer(r"\bif\s+let\s+Some\(&(\w+)\)\s*=", m[:body_close]):
+        if mm.start() < body_open:
+            continue
+        try:
+            o = rs.find_body_open(m, mm.end())
+        except rs.ScanError:
+            continue
+        x = mm.group(1)
+        edits.append(Edit(mm.start(1) - 1, "&" + x, "verif_ref_" + x, "norm:N16"))
+        edits.append(Edit(o + 1, "", " let " + x + " = *verif_ref_" + x + ";", "norm:N16"))
+
     edits.extend(norm_macros(text, m, strip_paths))
     edits.extend(norm_closure_underscore(text, m))
     edits.extend(norm_iter_chains(text, m, body_open, body_close))
@@ -716,7 +744,7 @@ def gen_fn(d, strip_paths, mode="verify", contract_text=None, vacuity=False):
             continue
         final.append(x)
     # merge multiple zero-width insertions at the same offset deterministically by kind order
-    order = {"splice:S5": 0, "splice:S6": 0, "norm:N7": 1, "splice:S1": 2, "splice:S3": 2, "norm:N9": 2, "splice:S2": 3, "norm:N4": 3, "splice:S4": 4, "splice:S7": 2, "norm:N12": 3, "norm:N13": 1, "norm:N14": 4, "norm:N15": 3}
+    order = {"splice:S5": 0, "splice:S6": 0, "norm:N7": 1, "splice:S1": 2, "splice:S3": 2, "norm:N9": 2, "splice:S2": 3, "norm:N4": 3, "splice:S4": 4, "splice:S7": 2, "norm:N12": 3, "norm:N13": 1, "norm:N14": 4, "norm:N15": 3, "norm:N16": 3}
     final.sort(key=lambda x: (x.off, 0 if x.old == "" else 1, order.get(x.kind, 5)))
     out, placed = apply_edits(text, final)
     if erase(out, placed) != text:
@@ -893,6 +921,9 @@ def generate(unit, vacuity=False, only=None):
             if d.opt("rlimit"):
                 # a verifier attribute (solver budget), not executable text
                 emit("#[verifier::rlimit(%d)]\n" % int(d.opt("rlimit")))
+            if d.opt("isolation") == "off":
+                # loops see the facts established before them (a proof-engineering knob, like rlimit; no runtime meaning)
+                emit("#[verifier::loop_isolation(false)]\n")
             emit(g.out + "\n\n")
             gu.fns.append(
                 {
